@@ -402,11 +402,16 @@ static void live_blocks(const struct mm_state *mm, long cnt[32], long *live, lon
 			uint32_t n = stack[--sp].i;
 			uint8_t l = stack[sp].l;
 			uint8_t lon = b->longest[n];
-			if(!lon) {
+			/* a zero node is an allocated block, unless both children are zero too: below an
+			 * allocated or entirely free node every value is non-zero (stale or freed), so a
+			 * zero node with two zero children is a full internal node */
+			int full_internal = !lon && l > B_BLOCK_EXP && !b->longest[buddy_left_child(n)] &&
+			    !b->longest[buddy_right_child(n)];
+			if(!lon && !full_internal) {
 				cnt[l]++;
 				(*live)++;
 				*calc += 1L << l;
-			} else if(lon != l && l > B_BLOCK_EXP) {
+			} else if((full_internal || lon != l) && l > B_BLOCK_EXP) {
 				stack[sp].i = buddy_right_child(n);
 				stack[sp++].l = l - 1;
 				stack[sp].i = buddy_left_child(n);
@@ -582,9 +587,12 @@ void verif_hook(unsigned p, uint64_t a, uint64_t b, uint64_t c, uint64_t d)
 				    pid_of(m->pl, m->pl_size), p == VP_SEND_REMOTE);
 				break;
 			}
-			case VP_Q_PUSH:
-				EMIT("\"e\":\"Push\",\"m\":%ld,\"q\":%d", mid_of((void *)a), (int)b);
+			case VP_Q_PUSH: {
+				const struct lp_msg *m = (void *)a;
+				EMIT("\"e\":\"Push\",\"m\":%ld,\"q\":%d,\"d\":%d,\"t\":%ld,\"ty\":%u,\"pid\":%d", mid_of(m), (int)b,
+				    (int)m->dest, t2i(m->dest_t), m->m_type, pid_of(m->pl, m->pl_size));
 				break;
+			}
 			case VP_Q_DRAIN:
 				if(a) {
 					int n = 0;
@@ -796,8 +804,8 @@ int main(int argc, char **argv)
 
 	fprintf(out,
 	    "{\"n\":0,\"thr\":-1,\"e\":\"Config\",\"serial\":%d,\"threads\":%d,\"ckpt\":%d,\"period\":%u,\"seed\":%lu,"
-	    "\"prng\":%lu,\"term\":%ld,\"nlps\":%d,\"batch\":%u,\"nev\":%d}\n",
-	    serial_mode, threads, ckpt, gvt_period, seed, prng, term_time > 0 ? (long)term_time : INF_T, M.nlps, batch_size, never_end);
+	    "\"prng\":%lu,\"term\":%ld,\"nlps\":%d,\"batch\":%u,\"nev\":%d,\"sw\":\"%u/%u\",\"policy\":%d,\"stopat\":%ld}\n",
+	    serial_mode, threads, ckpt, gvt_period, seed, prng, term_time > 0 ? (long)term_time : INF_T, M.nlps, batch_size, never_end, num, den, policy, stop_at);
 
 	vs_set_hang_cb(on_hang);
 	vs_init(seed, num, den, budget, policy);
